@@ -13,12 +13,14 @@ Lemma C09_alias_passes_level : assoc "level" dep_ul_bind = Some "param:level".
 Proof. reflexivity. Qed.
 Lemma C09_level_used : level_path_ok level_use_facts = true.
 Proof. reflexivity. Qed.
+Lemma C09_upper_loop_runs_while_ge : toms_upper_loop_ge = true.
+Proof. reflexivity. Qed.
 Lemma C09_options_forwarded : ul_grid_starkw = ["hypotest_kwargs"] /\ ul_toms_starkw = ["hypotest_kwargs"] /\ dep_ul_starkw = ["hypotest_kwargs"].
 Proof. repeat split; reflexivity. Qed.
 
-Theorem C09_level_forwarded_both_modes : forall (N : Num) H toms dg dt fuel bounds scan level,
+Theorem C09_level_forwarded_both_modes : forall (N : Num) H toms ge dg dt fuel bounds scan level,
   @eff_level N ul_grid_bind dg level = Some level /\ @eff_level N ul_toms_bind dt level = Some level /\
-  @upper_limit N H toms ul_grid_bind ul_toms_bind dg dt fuel bounds scan level = upper_limit_spec N H toms fuel bounds scan level.
+  @upper_limit N H toms ge ul_grid_bind ul_toms_bind dg dt fuel bounds scan level = upper_limit_spec N H toms ge fuel bounds scan level.
 Proof. intros N H toms. exact (level_forwarded_of_tables N H toms _ _ C09_grid_gets_level C09_toms_gets_level). Qed.
 
 Theorem C09_grid_limit_is_linear_interp : forall (H : R -> hres RNum) level k s1 s2 a b,
@@ -46,15 +48,15 @@ Theorem C09_best_bracket_valid : forall (N : Num) (c : cache N) level k,
    exists a b, best_bracket c level k = Some (a, b)).
 Proof. exact best_bracket_valid. Qed.
 
-Theorem C09_auto_limit_solves : forall (H : R -> hres RNum) toms tol L fuel lo up level o,
+Theorem C09_auto_limit_solves : forall (H : R -> hres RNum) toms tol L ge fuel lo up level o,
   toms_post toms tol -> (forall k, (k < 6)%nat -> lipschitz L (fun p => comp k (H p))) ->
-  @toms748_scan RNum H toms fuel lo up level = Some o ->
+  @toms748_scan RNum H toms ge fuel lo up level = Some o ->
   forall k, (k < 6)%nat ->
     let x := nth k (so_obs o :: so_exp o) 0%R in (Rabs (comp k (H x) - level) <= L * tol x)%R.
 Proof. exact auto_limit_solves. Qed.
 
-Theorem C09_results_are_hypotests : forall (N : Num) H toms gb tb dg dt fuel bounds scan level o,
-  @upper_limit N H toms gb tb dg dt fuel bounds scan level = Some o ->
+Theorem C09_results_are_hypotests : forall (N : Num) H toms ge gb tb dg dt fuel bounds scan level o,
+  @upper_limit N H toms ge gb tb dg dt fuel bounds scan level = Some o ->
   so_results o = map H (so_points o) /\ length (so_exp o) = 5%nat /\ (forall s, scan = Some s -> so_points o = s).
 Proof. exact results_are_hypotests. Qed.
 
@@ -77,6 +79,25 @@ Theorem C09_grid_limit_same_cell_ordered : forall a b ca cb da db level,
   (chord_cross a ca b cb level <= chord_cross a da b db level)%R.
 Proof. exact expected_limits_ordered_same_cell. Qed.
 
+(* the automatic scan can only fail by not leaving its extension loops - provided the upper loop runs while any curve is >= level *)
+Theorem C09_auto_scan_total : forall (H : R -> hres RNum) toms fuel lo up level,
+  (forall p, length (snd (H p)) = 5%nat) ->
+  @toms748_scan RNum H toms toms_upper_loop_ge fuel lo up level = None ->
+  let c0 := fst (@f_cached RNum H [] lo) in
+  @extend_low RNum H fuel level c0 lo (H lo) = None \/
+  exists c1 lo', @extend_low RNum H fuel level c0 lo (H lo) = Some (c1, lo') /\
+                 @extend_up RNum H toms_upper_loop_ge fuel level (fst (@f_cached RNum H c1 up)) up (H up) = None.
+Proof. rewrite C09_upper_loop_runs_while_ge. exact auto_scan_total. Qed.
+
+(* ... and does fail with the strict comparison when a curve meets the level exactly at the final upper bound *)
+Theorem C09_auto_scan_exact_hit_refuted :
+  exists (H : Qc -> hres QcNum) toms lo up level,
+    (exists c lo', @extend_low QcNum H 16 level (fst (@f_cached QcNum H [] lo)) lo (H lo) = Some (c, lo') /\
+       exists c' up', @extend_up QcNum H false 16 level (fst (@f_cached QcNum H c up)) up (H up) = Some (c', up')) /\
+    @toms748_scan QcNum H toms false 16 lo up level = None /\
+    @toms748_scan QcNum H toms true 16 lo up level <> None.
+Proof. exact auto_scan_exact_hit_refuted. Qed.
+
 Print Assumptions C09_level_forwarded_both_modes.
 Print Assumptions C09_grid_limit_is_linear_interp.
 Print Assumptions C09_grid_limit_in_crossing_cell.
@@ -87,3 +108,5 @@ Print Assumptions C09_expected_limits_ordered.
 Print Assumptions C09_expected_limits_ordered_approx.
 Print Assumptions C09_model_executed_is_real.
 Print Assumptions C09_grid_limit_same_cell_ordered.
+Print Assumptions C09_auto_scan_total.
+Print Assumptions C09_auto_scan_exact_hit_refuted.
